@@ -307,3 +307,239 @@ Proof.
   replace (now <=? t_created (s_ticket s) + LIFETIME) with true by (symmetry; apply N.leb_le; exact T3).
   cbn [negb]. rewrite andb_negb_l, andb_negb_r. cbn. split; reflexivity.
 Qed.
+
+Lemma load_checks ca c e k s : l_sess (load_session ca c e) = Some (k, s) ->
+  (c_skipverify c = false -> s_verified s = true /\ mem (c_name c) (s_certnames s) = true).
+Proof.
+  unfold load_session. destruct (lookup (c_name c) ca) as [s0|]; [|discriminate].
+  destruct (negb (c_skipverify c) && (negb (s_verified s0) || negb (mem (c_name c) (s_certnames s0)))) eqn:V.
+  - repeat match goal with |- context [if ?b then _ else _] => destruct b end; cbn [l_sess]; discriminate.
+  - repeat match goal with |- context [if ?b then _ else _] => destruct b end; cbn [l_sess]; try discriminate;
+    intros H; inversion H; subst; intros Sk; rewrite Sk in V; cbn in V; apply orb_false_elim in V; destruct V as [V1 V2];
+    apply negb_false_iff in V1, V2; auto.
+Qed.
+
+Lemma build_offer_checks ca c ca' k s p : build ca c = BOk ca' (Some (k, s)) p ->
+  (c_skipverify c = false -> s_verified s = true /\ mem (c_name c) (s_certnames s) = true).
+Proof.
+  unfold build. destruct (sp_go (c_spec c)) eqn:G.
+  - intros H. inversion H; subst. clear H. eapply load_checks; eassumption.
+  - intros H.
+    destruct (l_sess (load_session ca c (has XEms (sp_exts (c_spec c))))) as [[k0 s0]|] eqn:L;
+    cbv beta iota zeta in H;
+    repeat match type of H with context [if ?b then _ else _] => destruct b eqn:? end; try discriminate;
+    inversion H; subst; clear H; eapply load_checks; exact L.
+Qed.
+
+Ltac bool_hyps := repeat match goal with
+  | H : _ && _ = true |- _ => apply andb_prop in H; destruct H
+  | H : _ || _ = false |- _ => apply orb_false_elim in H; destruct H
+  | H : negb _ = false |- _ => apply negb_false_iff in H
+  | H : negb _ = true |- _ => apply negb_true_iff in H
+  end.
+
+Definition unexpired (s : session) (now : N) : Prop :=
+  now <= s_notafter s /\ now <= s_useby s /\ now <= t_created (s_ticket s) + LIFETIME.
+
+Lemma step_stores_good ca c v :
+  completed (snd (step ca c)) = true ->
+  negotiate (c_srv c) (c_spec c) = Some v ->
+  (v = V13 -> has_modes (c_spec c) = true) ->
+  (v <> V13 -> has_ticket (c_spec c) = true) ->
+  exists s, lookup (c_name c) (fst (step ca c)) = Some s /\
+            good (c_spec c) (c_srv c) (c_name c) (c_skipverify c) v (c_suite c) s /\
+            (resumed (snd (step ca c)) = false ->
+               s_useby s = c_now c + LIFETIME /\ t_created (s_ticket s) = c_now c /\ s_notafter s = sv_notafter (c_srv c)).
+Proof.
+  intros Hc Ng Hm Ht. destruct (step ca c) as [ca1 o] eqn:S. cbn [fst snd] in *.
+  unfold step in S. rewrite Ng in S.
+  destruct (build ca c) as [ca' off p|ca' e|ca' p] eqn:B; [|inversion S; subst; discriminate Hc..].
+  pose proof (fun k s (E : off = Some (k, s)) => build_offer_checks ca c ca' k s p (eq_trans B (f_equal (fun o => BOk ca' o p) E))) as CK.
+  destruct (v =? V13) eqn:EV.
+  - apply N.eqb_eq in EV. subst v. rewrite (Hm eq_refl) in S.
+    repeat match type of S with context [match ?x with _ => _ end] => destruct x eqn:? end;
+    inversion S; subst; clear S; try discriminate Hc;
+    repeat match goal with
+      | H : match ?x with _ => _ end = Some _ |- _ => destruct x eqn:?; try discriminate H
+      | H : Some _ = Some _ |- _ => inversion H; subst; clear H
+      end;
+    (eexists; split; [apply lookup_put_same|]); (split; [|cbn; try discriminate; intros _; unfold stored; cbn; auto]);
+    bool_hyps;
+    (constructor; unfold stored; cbn [s_vers s_ticket t_key t_vers t_suite t_ems s_suite s_ems s_verified s_certnames];
+     try reflexivity; try congruence;
+     [ intros Sk; try (eapply CK; [reflexivity|exact Sk]);
+       try (rewrite Sk; split; [reflexivity|]; unfold verify_ok in *; rewrite Sk in *; cbn in *; bool_hyps; assumption)
+     | intros _; split; [reflexivity|]; apply N.eqb_neq; assumption ]).
+  - apply N.eqb_neq in EV. rewrite (Ht EV) in S.
+    repeat match type of S with context [match ?x with _ => _ end] => destruct x eqn:? end;
+    inversion S; subst; clear S; try discriminate Hc;
+    repeat match goal with
+      | H : match ?x with _ => _ end = Some _ |- _ => destruct x eqn:?; try discriminate H
+      | H : Some _ = Some _ |- _ => inversion H; subst; clear H
+      end;
+    (eexists; split; [apply lookup_put_same|]); (split; [|cbn; try discriminate; intros _; unfold stored; cbn; auto]);
+    bool_hyps;
+    (constructor; unfold stored; cbn [s_vers s_ticket t_key t_vers t_suite t_ems s_suite s_ems s_verified s_certnames];
+     try reflexivity; try congruence;
+     [ intros Sk; try (eapply CK; [reflexivity|exact Sk]);
+       try (rewrite Sk; split; [reflexivity|]; unfold verify_ok in *; rewrite Sk in *; cbn in *; bool_hyps; assumption)
+     | intros _; repeat split; try assumption; try reflexivity;
+       repeat match goal with H : context [t_ems ?t] |- _ => revert H end;
+       destruct (t_ems (s_ticket s)), (has_ems (c_spec c)); cbn; intros; congruence ]).
+Qed.
+
+(* ---------- the theorem about the next connection ---------- *)
+Definition spec_wf (sp : spec) (omit : bool) : Prop :=
+  sp_go sp = false ->
+  psk_positions_ok (sp_exts sp) = true /\ (count_ticket (sp_exts sp) <= 1)%nat /\ (has XPsk (sp_exts sp) = true -> omit = true).
+
+Definition can_resume (sp : spec) (sv : server) (v : N) : Prop :=
+  (v = V12 /\ has_ticket sp = true) \/
+  (v = V13 /\ has_psk sp = true /\ has_modes sp = true /\ selected_group sv sp <> None).
+
+Definition same_config (c1 c2 : conn) : Prop :=
+  c_spec c2 = c_spec c1 /\ c_name c2 = c_name c1 /\ c_srv c2 = c_srv c1 /\
+  c_skipverify c2 = c_skipverify c1 /\ c_suite c2 = c_suite c1.
+
+Definition hrr_ok (c : conn) : Prop := sp_go (c_spec c) = true \/ needs_hrr (c_srv c) (c_spec c) = false.
+
+Definition resume_next_stmt (hrr_side : conn -> Prop) : Prop :=
+  forall ca c1 c2 v,
+  completed (snd (step ca c1)) = true ->
+  negotiate (c_srv c1) (c_spec c1) = Some v ->
+  can_resume (c_spec c1) (c_srv c1) v ->
+  same_config c1 c2 -> spec_wf (c_spec c2) (c_omit c2) ->
+  mem (c_suite c1) (sp_suites (c_spec c1)) = true ->
+  (v = V13 -> hrr_side c2) ->
+  exists s, lookup (c_name c1) (fst (step ca c1)) = Some s /\
+    (unexpired s (c_now c2) ->
+      resumed (snd (step (fst (step ca c1)) c2)) = true /\
+      exists k, o_offer (snd (step (fst (step ca c1)) c2)) = Some (k, s)).
+
+Lemma resume_next : resume_next_stmt hrr_ok.
+Proof.
+  intros ca c1 c2 v Hc Ng Cr Sc Wf Ms Hr.
+  assert (Hm : v = V13 -> has_modes (c_spec c1) = true).
+  { intros ->. destruct Cr as [[E _]|[_ [_ [M _]]]]; [discriminate|exact M]. }
+  assert (Ht : v <> V13 -> has_ticket (c_spec c1) = true).
+  { intros N. destruct Cr as [[_ T]|[E _]]; [exact T|congruence]. }
+  destruct (step_stores_good ca c1 v Hc Ng Hm Ht) as [s [L [G _]]].
+  exists s. split; [exact L|]. intros [T1 [T2 T3]].
+  destruct c2 as [sp2 n2 sv2 now2 om2 sk2 su2 tl2]. destruct Sc as [E1 [E2 [E3 [E4 E5]]]]. cbn in E1, E2, E3, E4, E5, Wf, Hr, T1, T2, T3. subst.
+  destruct Cr as [[-> T]|[-> [P [M Sg]]]].
+  - destruct (good_resumes12 _ _ _ _ _ _ _ now2 om2 tl2 G L Ng T Wf T1 T3) as [R O]. split; [exact R|eexists; exact O].
+  - assert (W : sp_go (c_spec c1) = false -> psk_positions_ok (sp_exts (c_spec c1)) = true /\ (count_ticket (sp_exts (c_spec c1)) <= 1)%nat).
+    { intros g. destruct (Wf g) as [A [B _]]. auto. }
+    destruct (good_resumes13 _ _ _ _ _ _ _ now2 om2 tl2 G L Ng P M W Sg (Hr eq_refl) Ms T1 T2 T3) as [R O].
+    split; [exact R|eexists; exact O].
+Qed.
+
+(* after a FULL handshake the stored session is unexpired for 7 days / until the certificate expires *)
+Lemma full_unexpired ca c v s now :
+  completed (snd (step ca c)) = true -> resumed (snd (step ca c)) = false ->
+  negotiate (c_srv c) (c_spec c) = Some v ->
+  (v = V13 -> has_modes (c_spec c) = true) -> (v <> V13 -> has_ticket (c_spec c) = true) ->
+  lookup (c_name c) (fst (step ca c)) = Some s ->
+  now <= c_now c + LIFETIME -> now <= sv_notafter (c_srv c) -> unexpired s now.
+Proof.
+  intros Hc Hr Ng Hm Ht L T1 T2.
+  destruct (step_stores_good ca c v Hc Ng Hm Ht) as [s' [L' [_ F]]]. rewrite L in L'. inversion L'; subst s'.
+  destruct (F Hr) as [A [B C]]. unfold unexpired. rewrite A, B, C. auto.
+Qed.
+
+(* ---------- pre_shared_key is the last extension ---------- *)
+Lemma psk_positions_last l : psk_positions_ok l = true -> has XPsk l = true -> exists l', l = l' ++ [XPsk].
+Proof.
+  induction l as [|x r IH]; cbn [psk_positions_ok has existsb]; [discriminate|].
+  destruct x; cbn [ext_eqb orb];
+  try (intros P H; destruct (IH P H) as [l' ->]; eexists (_ :: l'); reflexivity).
+  destruct r; [intros _ _; exists []; reflexivity|discriminate].
+Qed.
+
+Lemma build_psk_last ca c ca' off : build ca c = BOk ca' off true -> sp_go (c_spec c) = false ->
+  exists l', sp_exts (c_spec c) = l' ++ [XPsk].
+Proof.
+  intros H G. unfold build in H. rewrite G in H.
+  destruct (psk_positions_ok (sp_exts (c_spec c))) eqn:P; [|destruct (1 <? count_ticket (sp_exts (c_spec c)))%nat; discriminate].
+  destruct (has XPsk (sp_exts (c_spec c))) eqn:X; [apply psk_positions_last; assumption|].
+  exfalso.
+  destruct (l_sess (load_session ca c (has XEms (sp_exts (c_spec c))))) as [[k0 s0]|];
+  cbv beta iota zeta in H;
+  repeat match type of H with context [if ?b then _ else _] => destruct b eqn:? end; try discriminate.
+Qed.
+
+(* ---------- binder patch ---------- *)
+Lemma concat_binders_len bs : length (concat (map enc_binder bs)) = N.to_nat (binders_len bs).
+Proof.
+  induction bs as [|b r IH]; [reflexivity|]. cbn [map concat binders_len fold_right]. rewrite app_length, IH.
+  unfold enc_binder. cbn [length]. fold (binders_len r). lia.
+Qed.
+
+Lemma enc_binders_len bs : length (enc_binders bs) = N.to_nat (2 + binders_len bs).
+Proof. unfold enc_binders. rewrite app_length, concat_binders_len. cbn [be16 length]. lia. Qed.
+
+Definition psk_head (ids : list ident) (blen : N) : bytes :=
+  be16 41 ++ be16 (4 + 2 + idents_len ids + 2 + blen - 4) ++ be16 (idents_len ids) ++ concat (map enc_ident ids).
+
+Lemma psk_ext_split ids bs : ids <> [] -> bs <> [] -> psk_ext ids bs = psk_head ids (binders_len bs) ++ enc_binders bs.
+Proof.
+  intros Hi Hb. unfold psk_ext, psk_ext_len, psk_head. destruct ids; [congruence|]. destruct bs; [congruence|].
+  replace (4 + 2 + idents_len (i :: ids) + 2 + binders_len (b :: bs) =? 0) with false by (symmetry; apply N.eqb_neq; lia).
+  rewrite <- !app_assoc. reflexivity.
+Qed.
+
+Lemma patch_ok prefix ids old new :
+  ids <> [] -> old <> [] -> new <> [] -> binders_len old = binders_len new ->
+  patch (prefix ++ psk_ext ids old) old new = Ok (prefix ++ psk_ext ids new) /\
+  length (prefix ++ psk_ext ids new) = length (prefix ++ psk_ext ids old).
+Proof.
+  intros Hi Ho Hn E. rewrite (psk_ext_split ids old Hi Ho), (psk_ext_split ids new Hi Hn). rewrite E.
+  set (P := psk_head ids (binders_len new)).
+  assert (L : length (prefix ++ P ++ enc_binders new) = length (prefix ++ P ++ enc_binders old)).
+  { rewrite !app_length, !enc_binders_len, E. reflexivity. }
+  split; [|exact L]. unfold patch.
+  assert (C : (length (prefix ++ P ++ enc_binders old) - N.to_nat (2 + binders_len old) = length (prefix ++ P))%nat).
+  { rewrite !app_length, enc_binders_len. lia. }
+  rewrite C. rewrite app_assoc. rewrite firstn_app, firstn_all, Nat.sub_diag. cbn [firstn]. rewrite app_nil_r.
+  rewrite <- !app_assoc.
+  replace (length (prefix ++ P ++ enc_binders new) =? length (prefix ++ P ++ enc_binders old))%nat
+    with true by (symmetry; apply Nat.eqb_eq; exact L).
+  reflexivity.
+Qed.
+
+Section Binder.
+  (* cipherSuite.finishedHash(binderKey, transcript): HMAC of the suite's hash *)
+  Variable mac : N -> bytes -> bytes -> bytes.
+  Hypothesis mac_len : forall su k t, length (mac su k t) = N.to_nat (hash_len su).
+
+  Lemma binder_len_invariant prefix ids su key :
+    ids <> [] ->
+    let old := [placeholder su] in
+    let raw := prefix ++ psk_ext ids old in
+    let new := [mac su key (firstn (length raw - N.to_nat (2 + binders_len old)) raw)] in
+    patch raw old new = Ok (prefix ++ psk_ext ids new) /\ length (prefix ++ psk_ext ids new) = length raw.
+  Proof.
+    intros Hi old raw new. apply patch_ok; try exact Hi; try discriminate.
+    unfold old, new, placeholder. cbn [binders_len fold_right]. rewrite mac_len, repeat_length. reflexivity.
+  Qed.
+End Binder.
+
+Lemma resume_next_any_history : forall h c1 c2 v,
+  let ca := final [] h in
+  completed (snd (step ca c1)) = true ->
+  negotiate (c_srv c1) (c_spec c1) = Some v ->
+  can_resume (c_spec c1) (c_srv c1) v ->
+  same_config c1 c2 -> spec_wf (c_spec c2) (c_omit c2) ->
+  mem (c_suite c1) (sp_suites (c_spec c1)) = true ->
+  (v = V13 -> hrr_ok c2) ->
+  exists s, lookup (c_name c1) (fst (step ca c1)) = Some s /\
+    (unexpired s (c_now c2) ->
+      resumed (snd (step (fst (step ca c1)) c2)) = true /\
+      exists k, o_offer (snd (step (fst (step ca c1)) c2)) = Some (k, s)).
+Proof. intros h c1 c2 v ca. apply resume_next. Qed.
+
+Lemma run_app ca h1 h2 : run ca (h1 ++ h2) = run ca h1 ++ run (final ca h1) h2.
+Proof.
+  revert ca. induction h1 as [|c r IH]; intros ca; cbn [app run final]; [reflexivity|].
+  destruct (step ca c) as [ca' o] eqn:E. cbn [fst]. rewrite IH. reflexivity.
+Qed.
